@@ -363,12 +363,9 @@ fn exec(cx: &mut Ctx, op: &Op, pc: usize) -> Option<u64> {
             None
         }
         Op::DropTx { .. } => None,
-        Op::CRead { c } => {
-            env.cells[c as usize].with(|_| ());
-            None
-        }
-        Op::CWrite { c } => {
-            env.cells[c as usize].with_mut(|_| ());
+        Op::CRead { c } => Some(env.cells[c as usize].with(|p| unsafe { *p })),
+        Op::CWrite { c, v } => {
+            env.cells[c as usize].with_mut(|p| unsafe { *p = v });
             None
         }
         Op::ArcClone { r } => {
